@@ -77,6 +77,11 @@ Verdict(obs, ast, input, binds) ==
                                    Verdict1(obs, Run(ast, input, binds, [DefaultMd EXCEPT !.dev = KnownDevs[i]])) = "ok"}
                       IN  IF ds = {} THEN "no" ELSE "dev:" \o KnownDevs[CHOOSE i \in ds : TRUE]
 
+\* C10: "no value" is reported as ErrUndefined and only then (where the specification pins the outcome)
+UndefDiffers(obs, ast, input, binds) ==
+    LET R == Run(ast, input, binds, DefaultMd)
+    IN  R.x = "ok" /\ ~HasNull(input) /\ Legit(obs) /\ (IsUndef(R.r) # (obs.o = "undef"))
+
 \* the outcome the specification expects under the default choices, for export (G direction)
 Expected(ast, input, binds) ==
     LET R == Run(ast, input, binds, DefaultMd)
